@@ -154,6 +154,15 @@ impl Prop for C16Prop {
                 }
             }
         };
+        // sometimes the file differs from its result only in the line terminator
+        let main_text = match t.below(6) {
+            0 => main_text.replace('\n', "\r\n"),
+            1 => {
+                let f = format_with(&cfg, &main_text);
+                if cfg.crlf { f.replace("\r\n", "\n") } else { f.replace('\n', "\r\n") }
+            }
+            _ => main_text,
+        };
         let mut files = vec![FileSpec {
             path: format!("src/main.{}", *t.pick(&["pas", "pas", "dpr", "dpk", "PAS"])),
             text: main_text,
